@@ -5,7 +5,7 @@
    st = (M memory, P producer locals, C consumer locals, Q abstract queue ghost, K block sequence ghost, F monitors). *)
 From Coq Require Import List ZArith Arith.
 Import ListNotations.
-Require Import MayV.Queue.SpscModel MayV.Queue.SpscInv MayV.Queue.SpscThm MayV.Queue.SpscAccept.
+Require Import MayV.Queue.SpscModel MayV.Queue.SpscInv MayV.Queue.SpscThm MayV.Queue.SpscBlocks MayV.Queue.SpscAccept.
 
 (* (a) Refinement: the values handed out so far followed by the abstract queue are exactly the pushed
    values in push order; tail.index = number of pushes linearised (LP: the tail.index store),
@@ -100,6 +100,31 @@ Theorem C03_spsc_unconsumed_values_intact :
   slot (M s) (bid (K s) j) o = Some (j * B + o, nth (j * B + o) (pushed (Q s)) 0).
 Proof. exact unconsumed_values_intact. Qed.
 Print Assumptions C03_spsc_unconsumed_values_intact.
+
+(* (v, memory) the inner cache leaks nothing: every block ever allocated is one of the blocks
+   first .. last appended block, or the block alloc_node has just returned and push is about to link *)
+Theorem C03_spsc_all_blocks_stay_chained :
+  forall B, 1 <= B -> forall s, Reach B s ->
+  forall b, 1 <= b -> b < nalloc (M s) ->
+  (exists k, gfk (K s) <= k /\ k < gnb (K s) /\ bid (K s) k = b) \/ (pp (P s) = PLink /\ pnew (P s) = b).
+Proof. exact all_blocks_stay_chained. Qed.
+Print Assumptions C03_spsc_all_blocks_stay_chained.
+
+(* (v) PARTIAL: Queue::drop itself is not a transition of the model (it runs with &mut self); what is
+   proved is what it relies on in any state without a call in progress: drained implies
+   head.block = tail.block (its assert_eq!), and the walk first, first.next, .. up to tail.block visits
+   pairwise different blocks which are all blocks ever allocated (each freed exactly once, none leaked).
+   That the remaining values are dropped once is covered by the drop-counter oracle of q_spsc only. *)
+Theorem C03_spsc_drop_walk_partial :
+  forall B, 1 <= B -> forall s, Reach B s -> pp (P s) = PIdle -> cp (C s) = CIdle ->
+  (hidx (M s) = tidx (M s) -> hblk (M s) = tblk (M s)) /\
+  gnb (K s) = S (gtk (K s)) /\
+  (forall b, 1 <= b -> b < nalloc (M s) -> exists k, gfk (K s) <= k /\ k <= gtk (K s) /\ bid (K s) k = b) /\
+  (forall i j, gfk (K s) <= i -> i < j -> j <= gtk (K s) -> bid (K s) i <> bid (K s) j) /\
+  (forall j, gfk (K s) <= j -> j < gtk (K s) -> nxt (M s) (bid (K s) j) = bid (K s) (S j)) /\
+  first (M s) = bid (K s) (gfk (K s)) /\ tblk (M s) = bid (K s) (gtk (K s)).
+Proof. exact drop_view. Qed.
+Print Assumptions C03_spsc_drop_walk_partial.
 
 (* (d) len() called by the consumer thread lies between the abstract lengths at its call and at its
    return.  PARTIAL with respect to the property: len() from the producer thread or from a third
